@@ -387,6 +387,38 @@ def declName : GoDecl → String
   | .placeholder t => "<" ++ t ++ ">"
   | .crash s => "<crash " ++ s ++ ">"
 
+/-! ## recursive value types (driver side; NOT part of `wellTyped`, no theorem covers it)
+
+`type D struct { A D }` is rejected by Go (`invalid recursive type`).  The check follows containment by
+value — struct fields and embedded types, named types through their declarations, not pointers,
+slices or maps — with a fuel of one more than the number of declarations: running out of fuel means
+some by-value cycle is reachable. -/
+
+mutual
+def containsByValue (env : Env) : Nat → String → String → GoTy → Bool
+  | 0, _, _, _ => true
+  | fuel + 1, tp, tn, .named p n =>
+    (p == tp && n == tn) ||
+      (match lookupType env p n with
+        | some (.typeDef _ t) => containsByValue env fuel tp tn t
+        | some (.alias _ t) => containsByValue env fuel tp tn t
+        | _ => false)
+  | fuel + 1, tp, tn, .struct fs => fieldsContainByValue env fuel tp tn fs
+  | _, _, _, _ => false
+def fieldsContainByValue (env : Env) : Nat → String → String → List GoField → Bool
+  | _, _, _, [] => false
+  | fuel, tp, tn, f :: fs => containsByValue env fuel tp tn f.ty || fieldsContainByValue env fuel tp tn fs
+end
+
+def recursiveDecl (env : Env) (pkg : String) : List GoDecl → Option String
+  | [] => none
+  | d :: ds =>
+    let hit := match d with
+      | .typeDef n t => containsByValue env (2 * envDeclCount env + 2) pkg n t
+      | .alias n t => containsByValue env (2 * envDeclCount env + 2) pkg n t
+      | _ => false
+    if hit then some (declName d) else recursiveDecl env pkg ds
+
 def firstDup : List String → Option String
   | [] => none
   | x :: xs => if xs.contains x then some x else firstDup xs
